@@ -244,6 +244,7 @@ func run(repo, dir string, seed uint64, nunits, nvalues int, cfg idlgen.Config, 
 
 	// ---- oracle
 	fails := 0
+	fwLen := map[string]int{}
 	for i, line := range lines {
 		ans := answers[i]
 		c := checks[i]
@@ -266,6 +267,14 @@ func run(repo, dir string, seed uint64, nunits, nvalues int, cfg idlgen.Config, 
 		if c.skip != "" {
 			out.Count("oracle.skip." + c.skip)
 			continue
+		}
+		if c.what == "FW" && strings.HasPrefix(ans, "ok ") {
+			fwLen[line[3:]] = len(strings.TrimPrefix(ans[3:], "-")) / 2
+		}
+		if c.what == "BL" {
+			if n, ok := fwLen[line[3:]]; ok {
+				c.wantLen = n
+			}
 		}
 		if msg := verdict(c, ans); msg != "" {
 			fails++
@@ -433,6 +442,9 @@ func verdict(c *check, ans string) string {
 	case "BL":
 		if !strings.HasPrefix(ans, "ok ") {
 			return "BLength failed"
+		}
+		if c.wantLen >= 0 && ans != fmt.Sprintf("ok %d", c.wantLen) {
+			return fmt.Sprintf("BLength differs from the %d bytes FastAppend wrote", c.wantLen)
 		}
 		return ""
 	case "N", "R", "FR", "R+unknown", "R+retag", "R-required":
